@@ -228,3 +228,10 @@ Example C05_nonvacuous_history :
   length (snd (hist_run exW exObj ops)) = 4%nat /\
   fst (fst (hist_run exW exObj ops)) = exObj.
 Proof. vm_compute. repeat split. Qed.
+
+(* a system whose member was re-based after construction raises RuntimeError on a stream: it can
+   not return with weight coefficients applied to molar flows *)
+Theorem C05_system_mixed_basis_raises : forall w b ps mol, Exists (fun p => fst p <> b) ps ->
+  fst (call_stream w (System b ps) mol) = Some ERuntime.
+Proof. exact mixed_basis_call_lemma. Qed.
+Print Assumptions C05_system_mixed_basis_raises.
